@@ -643,3 +643,46 @@ pub fn run_encfast(rep: &mut Report, rng: &mut Rng, thorough: bool, sweep: bool)
         rep.case(format!("encfast:{}:{}:{}:{}:{}", bt4 as u8, dict_class(dict), nice, kind, size_class(data.len())), !data.is_empty(), || detail());
     }
 }
+
+/// The whole NORMAL-mode encoder (match finder + optimal parser with its price tables and probability models + range
+/// coder) as modelled in `Model/EncNormal.lean` / `Model/EncPrices.lean` against the real
+/// `LZMAWriter::new_no_header(.., false)` in `EncodeMode::Normal`: the model must produce the SAME BYTES (request
+/// `encnormal.parse … enc=1 bytesonly=1`; the driver also runs `parseRun` on the model's parse on every request), over
+/// HC4 and BT4, every lc/lp/pb class, dictionary sizes from 4096, nice_len 8..273, depth limits, random write partitions.
+/// `n` cases; `max_len` bounds the input size (the optimal parser does much more work per byte than the fast one).
+pub fn run_encnormal(rep: &mut Report, rng: &mut Rng, n: u64, max_len: usize) {
+    for i in 0..n {
+        let mut r = rng.fork();
+        let bt4 = i % 2 == 1;
+        let dict: u32 = *r.pick(&[4096u32, 4096, 4097, 5000, 8192, 65536, 1 << 20]);
+        let nice: u32 = *r.pick(&[8u32, 9, 16, 17, 32, 64, 128, 272, 273]);
+        let depth: i32 = *r.pick(&[0i32, 0, 1, 4, 48]);
+        let (lc, lp, pb) = *r.pick(&[(3u32, 0u32, 2u32), (3, 0, 2), (0, 0, 0), (4, 0, 4), (0, 4, 2), (8, 4, 4), (1, 3, 1), (2, 2, 3), (0, 2, 0)]);
+        let len = match r.below(8) {
+            0 => r.range(0, 6) as usize,
+            1 => r.range(6, 600) as usize,
+            2 | 3 => r.range(600, 6_000) as usize,
+            4 => (dict as usize).min(70_000) * 2 + r.range(0, 3000) as usize,
+            5 => r.range(4000, 4200) as usize,
+            _ => r.range(6_000, 40_000) as usize,
+        }.min(max_len);
+        let kind = r.below(7);
+        let mut data = mf_data(&mut r, kind, dict as usize, len);
+        // far-repeat data needs more than a dictionary's worth of input; allowed where that stays within 8x the budget
+        data.truncate(if dict as usize + 600 <= 8 * max_len { max_len.max(dict as usize + 600) } else { max_len });
+        let lz = crate::codec::LzOpts { dict, lc, lp, pb, normal: true, nice, bt4, depth, preset: None };
+        let (_, parts) = gen_partition(&mut r, data.len());
+        let detail = || json!({"stratum": "encnormal", "opts": lz.json(), "data_kind": kind, "data_len": data.len(), "data_fnv": fnv(&data), "data_hex": if data.len() <= 300 { hex(&data) } else { String::new() }});
+        rep.count(&format!("encnormal.{}", if bt4 { "bt4" } else { "hc4" }));
+        match crate::codec::lzma_compress(&data, &lz, crate::codec::LzmaFmt::RawSize, &parts) {
+            Outcome::Ok(c) => {
+                rep.model(
+                    format!("encnormal.parse kind={} dict={dict} lc={lc} lp={lp} pb={pb} nice={nice} depth={} data={} enc=1 bytesonly=1", if bt4 { "bt4" } else { "hc4" }, depth.max(0), hex(&data)),
+                    format!("ok {} {}", c.len(), fnv(&c)),
+                );
+            }
+            other => rep.fail(&format!("lzma-write-{}", other.class()), &other.describe(), detail()),
+        }
+        rep.case(format!("encnormal:{}:{}:{}:{}:{}", bt4 as u8, dict_class(dict), nice, kind, size_class(data.len())), !data.is_empty(), || detail());
+    }
+}
